@@ -1,7 +1,7 @@
 #!/bin/bash
 # tool/seed_confirm_all.sh C01 C06 ... : confirm A and B of each id (ids in parallel, variants sequentially)
 for id in "$@"; do
-  ( for v in A B; do [ -d /tmp/seed/$id/_seed/$v ] && /verif/tool/seed_confirm.sh $id $v > /tmp/seed/$id/_seed/$v/confirm.summary 2>&1; done ) &
+  ( for v in A B C; do [ -d ${SEED_DIR:-/tmp/seed}/$id/_seed/$v ] && /verif/tool/seed_confirm.sh $id $v > ${SEED_DIR:-/tmp/seed}/$id/_seed/$v/confirm.summary 2>&1; done ) &
 done
 wait
-for id in "$@"; do for v in A B; do echo "#### $id $v"; grep -h "tests-with\|demo rc\|RESULT" /tmp/seed/$id/_seed/$v/confirm.summary 2>/dev/null; done; done
+for id in "$@"; do for v in A B C; do echo "#### $id $v"; grep -h "tests-with\|demo rc\|RESULT" ${SEED_DIR:-/tmp/seed}/$id/_seed/$v/confirm.summary 2>/dev/null; done; done
